@@ -32,7 +32,7 @@ Neg == INSTANCE Negotiation WITH hdr <- <<>>, pref <- <<>>, MaxLen <- 0, Kinds <
 R == 1..Len(Reqs)
 None == [none |-> TRUE]
 OctetStream == Neg!Enc("application", "octet-stream", {})
-Faults == {"none", "nofeature", "poison"}   \* body level faults (a column the model needs is missing / the model refuses)
+Faults == {"none", "nofeature", "renamed", "poison"}   \* body level faults (a column the model needs is missing or comes under another name / the model refuses)
 
 (************************ derivation of the engine request ******************)
 (* operators over an explicit request record q / application table apps so  *)
